@@ -1633,6 +1633,17 @@ class TenSym(PySym):
                             out.append(i.at(list(multi) + [k]))
                 return Ten((sh[0], sh[1], sum(i.shape[2] for i in items)), out)
             raise Unsupported("call %s" % cn)
+        if cn in ("np.flatnonzero", "np.nonzero", "np.argwhere") and len(n.args) == 1:
+            t_ = self.to_ten(self.ex(n.args[0]))
+            cs_ = [x.const_value() for x in t_.data]
+            if any(c_ is None for c_ in cs_) or (cn != "np.flatnonzero" and t_.ndim != 1):
+                raise Unsupported("%s of symbolic values / of an array of shape %s" % (cn, t_.shape))
+            idx_ = Ten((sum(1 for c_ in cs_ if c_ != 0),), [Rat(Poly.const(i_)) for i_, c_ in enumerate(cs_) if c_ != 0])
+            if cn == "np.nonzero":
+                return (idx_,)
+            if cn == "np.argwhere":
+                return Ten((idx_.shape[0], 1), list(idx_.data))
+            return idx_
         if cn in ("np.logical_not", "np.logical_and", "np.logical_or", "np.invert"):
             ts_ = [self.to_ten(self.ex(a)) for a in n.args]
 
